@@ -157,6 +157,12 @@ func (n *rootnode) Lookup(ctx context.Context, name string, out *fuse.EntryOut) 
 		log.G(ctx).WithError(err).Debugf("failed to decode ref base64 %q", name)
 		return nil, syscall.EINVAL
 	}
+	if base64.StdEncoding.EncodeToString(refBytes) != name {
+		// The decoder accepts more than one spelling of the same bytes. Serve an image under its canonical name only;
+		// otherwise it gets several directories, which are released independently of each other.
+		log.G(ctx).Debugf("ref %q is not canonical base64", name)
+		return nil, syscall.EINVAL
+	}
 	ref := string(refBytes)
 	refspec, err := reference.Parse(ref)
 	if err != nil {
